@@ -420,9 +420,172 @@ class Run:
                     results.append((label, ["ignored"]))
             self.tally(leg, results)
 
+    # ---------------------------------------------------------------- keyrings mutated while in use
+    def history(self):
+        """spec: {"kind": "history", "A": ring|null->empty KeyRing, "B": ..., "topics": [uri..], "procs": [uri..],
+                  "ops": [["set", "A"|"B", prefix, key|null] | ["pub", ti, args, kwargs]
+                          | ["call", pi, args, kwargs, {"result": {...}} | {"exc": {...}}]
+                          | ["redeliver_pub", k] | ["redeliver_call", k]]}
+        The SAME two sessions and KeyRing objects live through the whole history.  Every leg records how many set ops
+        had been applied when its message was sealed ("sets_at_seal") and when it was received ("sets_at_recv")."""
+        sp = self.spec
+        A, aw = self.new_session(None, 1001)
+        B, bw = self.new_session(None, 1002)
+        ringA = make_ring(sp["A"] or {"default": None, "keys": []})
+        ringB = make_ring(sp["B"] or {"default": None, "keys": []})
+        A.s.set_payload_codec(ringA)
+        B.s.set_payload_codec(ringB)
+        events, invoked = [], []
+        current = {}
+
+        def make_handler(ti):
+            def handler(*a, **k):
+                events.append([1, [vid(x) for x in a], [[kk, vid(x)] for kk, x in k.items()]])
+            return handler
+
+        for ti, t in enumerate(sp["topics"]):
+            B.s.subscribe(make_handler(ti), t)
+            req = [m for m in bw.sent if isinstance(m, message.Subscribe)][-1].request
+            B.recv_msg(message.Subscribed(req, 101 + ti))
+            turn()
+
+        def make_endpoint(pi):
+            def endpoint(*a, **k):
+                invoked.append(["invoked", [vid(x) for x in a], [[kk, vid(x)] for kk, x in k.items()]])
+                how = current["how"]
+                if "exc" in how:
+                    e = ApplicationError(how["exc"]["error"], *[VALUES[i] for i in how["exc"]["args"]])
+                    e.kwargs = {kk: VALUES[i] for kk, i in how["exc"]["kwargs"]}
+                    raise e
+                r = how["result"]
+                ra = [VALUES[i] for i in r["args"]]
+                rk = None if r["kwargs"] is None else {kk: VALUES[i] for kk, i in r["kwargs"]}
+                if rk is None and len(ra) == 1:
+                    return ra[0]
+                return types.CallResult(*ra, **(rk or {}))
+            return endpoint
+
+        for pi, pr in enumerate(sp["procs"]):
+            B.s.register(make_endpoint(pi), pr)
+            req = [m for m in bw.sent if isinstance(m, message.Register)][-1].request
+            B.recv_msg(message.Registered(req, 201 + pi))
+            turn()
+
+        nset = 0
+        pubs, calls = [], []          # captured (message, uri index, sets_at_seal, payload args/kwargs)
+        inv_id = [7000]
+
+        def deliver_event(pub, ti, sealed_at, sent, opi):
+            ev, d2 = self.hop(message.Event(101 + ti, 9000 + opi, payload=pub.payload, enc_algo=pub.enc_algo,
+                                            enc_serializer=pub.enc_serializer, enc_key=pub.enc_key, args=pub.args, kwargs=pub.kwargs))
+            n0, nlog = len(events), len(B.log)
+            B.recv_msg(ev)
+            turn(2)
+            raised = [e for e in B.log[nlog:] if e[0] == "raised"]
+            return ["raised", raised[0][2]] if raised else ["handlers", events[n0:]]
+
+        def deliver_invocation(cm, pi):
+            inv_id[0] += 1
+            inv, d2 = self.hop(message.Invocation(inv_id[0], 201 + pi, payload=cm.payload, enc_algo=cm.enc_algo,
+                                                  enc_serializer=cm.enc_serializer, enc_key=cm.enc_key, args=cm.args, kwargs=cm.kwargs))
+            n0, nlog, nsent = len(invoked), len(B.log), len(bw.sent)
+            B.recv_msg(inv)
+            turn()
+            raised = [e for e in B.log[nlog:] if e[0] == "raised"]
+            new = [m for m in bw.sent[nsent:] if isinstance(m, (message.Yield, message.Error))]
+            if raised:
+                return ["raised", raised[0][2]], new
+            if len(invoked) > n0:
+                return invoked[-1], new
+            if new and isinstance(new[-1], message.Error):
+                return ["failed", new[-1].error], new
+            return ["ignored"], new
+
+        def leg(name, msg, data, out, opi, uri, sealed_at, sent, **extra):
+            d = dict(leg=name, op=opi, uri=uri, sets_at_seal=sealed_at, sets_at_recv=nset, sent=sent,
+                     outcomes=[[out, 1]], odd=[], n_alterations=1, **extra)
+            d.update(self.describe(msg, data, MARKERS))
+            self.legs.append(d)
+
+        for opi, op in enumerate(sp["ops"]):
+            if op[0] == "set":
+                (ringA if op[1] == "A" else ringB).set_key(op[2], make_key(op[3]) if op[3] else None)
+                nset += 1
+            elif op[0] == "pub":
+                ti, args, kwargs = op[1], op[2], op[3]
+                A.s.publish(sp["topics"][ti], *[VALUES[i] for i in args], **{k: VALUES[i] for k, i in kwargs})
+                pub, data = self.hop([m for m in aw.sent if isinstance(m, message.Publish)][-1])
+                pubs.append((pub, data, ti, nset, [args, kwargs]))
+                leg("publish_event", pub, data, deliver_event(pub, ti, nset, None, opi), opi, sp["topics"][ti], nset, [args, kwargs])
+            elif op[0] == "redeliver_pub":
+                if pubs:
+                    pub, data, ti, at, sent = pubs[op[1] % len(pubs)]
+                    leg("publish_event", pub, data, deliver_event(pub, ti, at, None, opi), opi, sp["topics"][ti], at, sent, redelivered=True)
+            elif op[0] in ("call", "redeliver_call"):
+                if op[0] == "call":
+                    pi, args, kwargs, how = op[1], op[2], op[3], op[4]
+                    out = {}
+                    fut = A.s.call(sp["procs"][pi], *[VALUES[i] for i in args], **{k: VALUES[i] for k, i in kwargs})
+
+                    def ok(r, out=out):
+                        if isinstance(r, types.CallResult):
+                            out["done"] = ["invoked", [vid(x) for x in r.results], [[kk, vid(x)] for kk, x in r.kwresults.items()]]
+                        else:
+                            out["done"] = ["invoked", [] if r is None else [vid(r)], []]
+
+                    def err(f, out=out):
+                        v = f.value if hasattr(f, "value") else f
+                        out["done"] = ["failed", getattr(v, "error", type(v).__name__)]
+                        out["err_args"] = [vid(a) for a in getattr(v, "args", [])]
+                        out["err_kwargs"] = [[kk, vid(x)] for kk, x in (getattr(v, "kwargs", None) or {}).items()]
+                        out["err_text"] = str(v.args[0]) if getattr(v, "args", None) and isinstance(v.args[0], str) else ""
+                    txaio.add_callbacks(fut, ok, err)
+                    call_msg = [m for m in aw.sent if isinstance(m, message.Call)][-1]
+                    cm, data = self.hop(call_msg)
+                    calls.append((cm, data, pi, nset, [args, kwargs], how))
+                    at, sent, redel = nset, [args, kwargs], False
+                else:
+                    if not calls:
+                        continue
+                    cm, data, pi, at, sent, how = calls[op[1] % len(calls)]
+                    out, call_msg, redel = None, None, True
+                current["how"] = how
+                o, replies = deliver_invocation(cm, pi)
+                leg("call_invocation", cm, data, o, opi, sp["procs"][pi], at, sent, redelivered=redel)
+                if redel or not replies:
+                    continue
+                r1, rdata = self.hop(replies[-1])
+                is_err = isinstance(r1, message.Error)
+                if is_err:
+                    m = message.Error(message.Call.MESSAGE_TYPE, call_msg.request, r1.error, payload=r1.payload, enc_algo=r1.enc_algo,
+                                      enc_serializer=r1.enc_serializer, enc_key=r1.enc_key, args=r1.args, kwargs=r1.kwargs)
+                else:
+                    m = message.Result(call_msg.request, payload=r1.payload, enc_algo=r1.enc_algo, enc_serializer=r1.enc_serializer,
+                                       enc_key=r1.enc_key, args=r1.args, kwargs=r1.kwargs)
+                nlog = len(A.log)
+                A.recv_msg(self.hop(m)[0])
+                turn()
+                raised = [e for e in A.log[nlog:] if e[0] == "raised"]
+                if raised:
+                    o2 = ["raised", raised[0][2]]
+                else:
+                    o2 = out.get("done", ["ignored"])
+                    if is_err and o2[0] == "failed" and o2[1] == r1.error and (
+                            o2[1] not in ENC_URIS or "INVOCATION" in out.get("err_text", "")):
+                        o2 = ["invoked", out["err_args"], out["err_kwargs"]]
+                own_exc = is_err and "exc" in how and r1.error == how["exc"]["error"] and o[0] == "invoked"
+                if is_err:
+                    sent2 = [how["exc"]["args"], how["exc"]["kwargs"]] if own_exc else [[NOTE], []]
+                else:
+                    sent2 = [how["result"]["args"], how["result"]["kwargs"]]
+                leg("error" if is_err else "yield_result", r1, rdata, o2, opi, sp["procs"][pi], nset, sent2,
+                    error_uri=r1.error if is_err else None, own_exc=bool(own_exc), call_encrypted=bool(cm.enc_algo), progress=False)
+
     def run(self):
         try:
-            if self.spec["kind"] == "pubsub":
+            if self.spec["kind"] == "history":
+                self.history()
+            elif self.spec["kind"] == "pubsub":
                 self.pubsub()
             else:
                 self.call()
